@@ -86,5 +86,13 @@ Section Index.
     end.
 End Index.
 
+(* row edits (key k becomes x) applied through the writer, each with the pre-image currently in the table:
+   what a fast-forward, a merge, a cherry-pick, a revert or a conflict resolution does to the index *)
+Definition apply_edits (kf : row -> ikey) (s : tstate) (eds : list (N * option row)) : tstate :=
+  fold_left (fun s ed => wrun kf (edit_ops (t_rows s) (fst ed) (snd ed)) s) eds s.
+
+Definition init_state (kf : row -> ikey) (rows : list (N * cell * cell)) : tstate :=
+  wrun kf (map (fun r => let '(k, a, b) := r in WInsert k (a, b)) rows) empty_state.
+
 Definition kf_a (r : row) : ikey := [fst r].            (* KEY ia (a) *)
 Definition kf_ba (r : row) : ikey := [snd r; fst r].    (* KEY iba (b, a) *)
